@@ -46,6 +46,31 @@ def _perf_counter():
     return 1000.0 + t.sim.now
 
 
+# -- process identity --------------------------------------------------------
+
+FAKE_PID_BASE = 4_100_000      # above Linux pid_max: never a real process
+
+
+def fake_pid(proc):
+    if proc == "main":
+        return FAKE_PID_BASE
+    digits = "".join(c for c in proc if c.isdigit())
+    return FAKE_PID_BASE + (int(digits) if digits else 999)
+
+
+def _getpid():
+    """toasty code running in a simulated process sees that process's own (fake, stable) pid, as it would after a
+    real fork; everything else - in particular filelock, whose fork tracking and stale-lock breaking key on the real
+    pid - keeps seeing the real one."""
+    t = current_task()
+    if t is not None:
+        import sys
+        caller = sys._getframe(1).f_globals.get("__name__", "")
+        if caller == "toasty" or caller.startswith("toasty."):
+            return fake_pid(t.proc)
+    return _installed["os.getpid"]()
+
+
 # -- lock files --------------------------------------------------------------
 
 def _os_open(path, flags, mode=0o777, *, dir_fd=None):
@@ -199,6 +224,8 @@ def install():
     time.time = _time
     time.monotonic = _monotonic
     time.perf_counter = _perf_counter
+    _installed["os.getpid"] = os.getpid
+    os.getpid = _getpid
     _installed["os.remove"] = os.remove
     _installed["os.rename"] = os.rename
     _installed["os.replace"] = os.replace
